@@ -133,7 +133,7 @@ the counter starts at 0 and is incremented exactly once after each emission, ear
 
 func reseqProps(r *reseq) []string {
 	if rel(r.pkg.PkgPath) == "pkg/obiiter" {
-		return []string{"C03"}
+		return []string{"C03", "C01"} // SortBatches restores the file order behind the parallel parsers of every reader
 	}
 	return []string{"C04", "C18", "C05"}
 }
